@@ -20,4 +20,274 @@ def Spec.keyKinds : List (Bytes × (Curve × Bool × Bool)) :=
 def Spec.keyKind (human : Bytes) : Option (Curve × Bool × Bool) :=
   (Spec.keyKinds.find? fun p => p.1 == human).map (·.2)
 
+
+theorem classify_row (r : Row) (hr : r ∈ keyRows) (s : Str) (hp : r.human <+: s) (hl : s.length = r.encLen) :
+    ∃ spec, Spec.keyKind r.human = some spec ∧ classify s = .ok spec := by
+  obtain ⟨t, rfl⟩ := hp
+  simp only [keyRows, Generated.C08.keyRows, List.map, Row.ofTuple, List.mem_cons, List.not_mem_nil, or_false] at hr
+  rcases hr with rfl | rfl | rfl | rfl | rfl | rfl | rfl | rfl | rfl | rfl | rfl | rfl | rfl
+  all_goals
+    refine ⟨_, rfl, ?_⟩
+    simp only [classify, Generated.C08.importCurves, Generated.C08.importLengths, hl]
+    simp [Curve.ofTag, Curve.all, Curve.tag, tagPk, tagSk]
+
+/-- first key row with a given human prefix and payload length (what `base58_encode` selects) -/
+def keyRowOf (pfx : Bytes) (n : Nat) : Option Row := keyRows.find? fun r => r.human == pfx && r.dataLen == n
+
+theorem keyRowOf_mem (pfx : Bytes) (n : Nat) (r : Row) (h : keyRowOf pfx n = some r) :
+    r ∈ keyRows ∧ r.human = pfx ∧ r.dataLen = n := by
+  unfold keyRowOf at h
+  refine ⟨List.mem_of_find?_eq_some h, ?_⟩
+  have := List.find?_some h
+  simpa using this
+
+theorem skRow (c : Curve) : ∃ r, keyRowOf (c.tag ++ tagSk) 32 = some r ∧ Spec.keyKind r.human = some (c, false, true) := by
+  cases c <;> exact ⟨_, rfl, rfl⟩
+
+theorem eskRow (c : Curve) : ∃ r, keyRowOf (c.tag ++ tagEsk) 56 = some r ∧ Spec.keyKind r.human = some (c, true, true) := by
+  cases c <;> exact ⟨_, rfl, rfl⟩
+
+theorem pkRow (c : Curve) : ∃ r, keyRowOf (c.tag ++ tagPk) (pkLen c) = some r ∧ Spec.keyKind r.human = some (c, false, false) := by
+  cases c <;> exact ⟨_, rfl, rfl⟩
+
+theorem edsk64Row : ∃ r, keyRowOf (Curve.ed.tag ++ tagSk) 64 = some r ∧ Spec.keyKind r.human = some (.ed, false, true) :=
+  ⟨_, rfl, rfl⟩
+
+/-- key texts start with characters `bytes.fromhex` rejects -/
+theorem key_prefix_nonhex (c : Curve) (sfx : Bytes) (h : sfx = tagSk ∨ sfx = tagEsk ∨ sfx = tagPk) :
+    ∃ p ∈ nonHexStarts, p <+: (c.tag ++ sfx) := by
+  rcases h with h | h | h <;> subst h <;> cases c <;>
+    first
+    | exact ⟨[101, 100, 115], by decide, ⟨_, rfl⟩⟩
+    | exact ⟨[101, 100, 112], by decide, ⟨_, rfl⟩⟩
+    | exact ⟨[101, 100, 101, 115], by decide, ⟨_, rfl⟩⟩
+    | exact ⟨[115], by decide, ⟨_, rfl⟩⟩
+    | exact ⟨[112], by decide, ⟨_, rfl⟩⟩
+    | exact ⟨[66, 76], by decide, ⟨_, rfl⟩⟩
+
+/-- a key object whose secret has the curve's length -/
+def WFKey (P : Prims) (k : Key) : Prop :=
+  ∃ sk, k.sec = some sk ∧ KeyPair P k.curve k.pub sk ∧ (k.curve ≠ .ed → sk.length = 32 ∧ IsBytes sk)
+
+theorem fse_rec : Generated.C08.fromSecretExponentRecognised = true := by decide
+
+/-- importing the exportable secret material gives the key back -/
+theorem fromSecretExponent_material (P : Prims) (L : Laws P) (k : Key) (sk : Bytes) (hsec : k.sec = some sk)
+    (hkp : KeyPair P k.curve k.pub sk) :
+    ∃ mat, (if k.curve = .ed then P.edSkToSeed sk else some sk) = some mat ∧
+      fromSecretExponent P k.curve mat = .ok k ∧ (k.curve = .ed → mat.length = 32 ∧ IsBytes mat) := by
+  obtain ⟨pub, sec, c⟩ := k
+  simp only at hsec hkp ⊢
+  subst hsec
+  cases c
+  · obtain ⟨seed, hseed⟩ := hkp
+    obtain ⟨h32, hb, _, _, _, hts⟩ := L.ed_keypair seed pub sk hseed
+    refine ⟨seed, by simp [hts], ?_, fun _ => ⟨h32, hb⟩⟩
+    have : ¬ seed.length = 64 := by omega
+    simp [fromSecretExponent, fse_rec, this, hseed]
+  all_goals
+    refine ⟨sk, by simp, ?_, fun h => by cases h⟩
+    simp only [KeyPair] at hkp
+    simp [fromSecretExponent, fse_rec, hkp]
+
+
+theorem kdf_eq : exportKdf = some ⟨32768, 32, 24, 8⟩ ∧ importKdf = some ⟨32768, 32, 24, 8⟩ := ⟨rfl, rfl⟩
+
+/-- importing a key text: what `from_encoded_key` does once the text is known to be the encoding of a payload
+for a key row -/
+theorem import_of_encoded (P : Prims) (C : Codec) (r : Row) (hr : r ∈ keyRows) (s : Str) (payload : Bytes)
+    (spec : Curve × Bool × Bool) (hspec : Spec.keyKind r.human = some spec)
+    (hpre : r.human <+: s) (hlen : s.length = r.encLen) (hscrub : scrub (.str s) = .ok s)
+    (hdec : C.decode s = some payload) (pass : Option Bytes) :
+    fromEncodedKey P C (.str s) pass =
+      if !spec.2.2 then .ok ⟨payload, none, spec.1⟩
+      else if spec.2.1 then (decryptSecret P ⟨32768, 32, 24, 8⟩ pass payload).bind (fromSecretExponent P spec.1)
+      else fromSecretExponent P spec.1 payload := by
+  obtain ⟨spec', hs', hcl⟩ := classify_row r hr s hpre hlen
+  rw [hspec] at hs'; cases hs'
+  obtain ⟨c, enc, sec⟩ := spec
+  cases sec <;> cases enc <;> simp [fromEncodedKey, hscrub, hcl, hdec, kdf_eq.2]
+
+theorem export_import_plain (P : Prims) (C : Codec) (L : Laws P) (CL : CodecLaws C keyRows)
+    (k : Key) (hk : WFKey P k) (pass : Option Bytes) (hp : pass.getD [] = []) (salt : Bytes) :
+    ∃ s, secretKey P C k pass true salt = .ok s ∧ ∀ pass', fromEncodedKey P C (.str s) pass' = .ok k := by
+  obtain ⟨sk, hsec, hkp, hwf⟩ := hk
+  obtain ⟨mat, hmat, himp, hml⟩ := fromSecretExponent_material P L k sk hsec hkp
+  obtain ⟨r, hrow, hspec⟩ := skRow k.curve
+  obtain ⟨hr, hhuman, hdl⟩ := keyRowOf_mem _ _ r hrow
+  have hmatlen : mat.length = 32 ∧ IsBytes mat := by
+    by_cases hc : k.curve = .ed
+    · exact hml hc
+    · simp only [hc, if_false, Option.some.injEq] at hmat; subst hmat; exact hwf hc
+  obtain ⟨s, henc, hdec, hlen, hpre, hascii⟩ := CL.enc_dec r hr mat (by rw [hmatlen.1, hdl]) hmatlen.2
+  have hskne : sk.isEmpty = false := by
+    cases sk with
+    | nil =>
+      exfalso
+      by_cases hc : k.curve = .ed
+      · rw [hc] at hkp; obtain ⟨seed, hs⟩ := hkp
+        have := (L.ed_keypair seed _ _ hs).2.2.1; simp at this
+      · have := (hwf hc).1; simp at this
+    | cons _ _ => rfl
+  have hmat' : (if (k.curve = .ed && true) = true then P.edSkToSeed sk else some sk) = some mat := by
+    by_cases hc : k.curve = .ed <;> simp [hc] at hmat ⊢ <;> exact hmat
+  refine ⟨s, ?_, ?_⟩
+  · rw [hhuman] at henc
+    have hpe : (pass.getD []).isEmpty = true := by rw [hp]; rfl
+    simp [secretKey, kdf_eq.1, hsec, hskne, hmat, hpe, henc]
+  · intro pass'
+    obtain ⟨p, hp1, hp2⟩ := key_prefix_nonhex k.curve tagSk (Or.inl rfl)
+    rw [hhuman] at hpre
+    have hs : scrub (.str s) = .ok s := scrub_str_nonhex s p hp1 (hp2.trans hpre) hascii
+    rw [← hhuman] at hpre
+    rw [import_of_encoded P C r hr s mat _ hspec hpre hlen hs hdec pass']
+    simpa using himp
+
+theorem export_import_encrypted (P : Prims) (C : Codec) (L : Laws P) (CL : CodecLaws C keyRows)
+    (k : Key) (hk : WFKey P k) (pw : Bytes) (hpw : pw ≠ []) (salt : Bytes) (hsl : salt.length = 8)
+    (hsb : IsBytes salt) :
+    ∃ s, secretKey P C k (some pw) true salt = .ok s ∧ fromEncodedKey P C (.str s) (some pw) = .ok k := by
+  obtain ⟨sk, hsec, hkp, hwf⟩ := hk
+  obtain ⟨mat, hmat, himp, hml⟩ := fromSecretExponent_material P L k sk hsec hkp
+  obtain ⟨r, hrow, hspec⟩ := eskRow k.curve
+  obtain ⟨hr, hhuman, hdl⟩ := keyRowOf_mem _ _ r hrow
+  have hmatlen : mat.length = 32 ∧ IsBytes mat := by
+    by_cases hc : k.curve = .ed
+    · exact hml hc
+    · simp only [hc, if_false, Option.some.injEq] at hmat; subst hmat; exact hwf hc
+  let ek := P.pbkdf2 32768 32 pw salt
+  let box := P.boxSeal ek (List.replicate 24 0) mat
+  obtain ⟨hbl, hbb⟩ := L.seal_len ek (List.replicate 24 0) mat hmatlen.2
+  have hpl : (salt ++ box).length = r.dataLen := by
+    rw [hdl, List.length_append, hsl]; show 8 + (P.boxSeal ek _ mat).length = 56; rw [hbl, hmatlen.1]
+  have hpb : IsBytes (salt ++ box) := by
+    intro x hx; rcases List.mem_append.mp hx with h | h
+    · exact hsb x h
+    · exact hbb x h
+  obtain ⟨s, henc, hdec, hlen, hpre, hascii⟩ := CL.enc_dec r hr (salt ++ box) hpl hpb
+  have hskne : sk.isEmpty = false := by
+    cases sk with
+    | nil =>
+      exfalso
+      by_cases hc : k.curve = .ed
+      · rw [hc] at hkp; obtain ⟨seed, hs⟩ := hkp
+        have := (L.ed_keypair seed _ _ hs).2.2.1; simp at this
+      · have := (hwf hc).1; simp at this
+    | cons _ _ => rfl
+  have hmat' : (if (k.curve = .ed && true) = true then P.edSkToSeed sk else some sk) = some mat := by
+    by_cases hc : k.curve = .ed <;> simp [hc] at hmat ⊢ <;> exact hmat
+  have hpe : (pw.isEmpty) = false := by cases pw with | nil => exact absurd rfl hpw | cons _ _ => rfl
+  refine ⟨s, ?_, ?_⟩
+  · rw [hhuman] at henc
+    simp [secretKey, kdf_eq.1, hsec, hskne, hmat, hpe]
+    exact (by simpa [ek, box] using congrArg (fun o => orErr o (Err.valueError Site.codec)) henc)
+  · obtain ⟨p, hp1, hp2⟩ := key_prefix_nonhex k.curve tagEsk (Or.inr (Or.inl rfl))
+    rw [hhuman] at hpre
+    have hs : scrub (.str s) = .ok s := scrub_str_nonhex s p hp1 (hp2.trans hpre) hascii
+    rw [← hhuman] at hpre
+    rw [import_of_encoded P C r hr s (salt ++ box) _ hspec hpre hlen hs hdec (some pw)]
+    have ht : (salt ++ box).take 8 = salt := by rw [← hsl, List.take_left]
+    have hd : (salt ++ box).drop 8 = box := by rw [← hsl, List.drop_left]
+    simp only [Bool.not_true, Bool.false_eq_true, if_false, if_true, decryptSecret, ht, hd]
+    show (orErr (P.boxOpen ek (List.replicate 24 0) (P.boxSeal ek (List.replicate 24 0) mat)) _).bind _ = _
+    rw [L.seal_open]
+    exact himp
+
+
+/-- exporting with `ed25519_seed=False` (the 64-byte ed25519 secret key, `edsk` of 98 characters; the plain
+exponent for the other curves) and importing again -/
+theorem export_import_raw (P : Prims) (C : Codec) (L : Laws P) (CL : CodecLaws C keyRows)
+    (k : Key) (hk : WFKey P k) (salt : Bytes) :
+    ∃ s, secretKey P C k none false salt = .ok s ∧ ∀ pass', fromEncodedKey P C (.str s) pass' = .ok k := by
+  by_cases hc : k.curve = .ed
+  · obtain ⟨sk, hsec, hkp, _⟩ := hk
+    obtain ⟨pub, sec, c⟩ := k
+    simp only at hc hsec hkp
+    subst hc hsec
+    obtain ⟨seed, hseed⟩ := hkp
+    obtain ⟨_, _, h64, hb, hpk, _⟩ := L.ed_keypair seed pub sk hseed
+    obtain ⟨r, hrow, hspec⟩ := edsk64Row
+    obtain ⟨hr, hhuman, hdl⟩ := keyRowOf_mem _ _ r hrow
+    obtain ⟨s, henc, hdec, hlen, hpre, hascii⟩ := CL.enc_dec r hr sk (by rw [h64, hdl]) hb
+    have hskne : sk.isEmpty = false := by cases sk with | nil => simp at h64 | cons _ _ => rfl
+    refine ⟨s, ?_, ?_⟩
+    · rw [hhuman] at henc
+      simp [secretKey, kdf_eq.1, hskne, henc]
+    · intro pass'
+      obtain ⟨p, hp1, hp2⟩ := key_prefix_nonhex .ed tagSk (Or.inl rfl)
+      rw [hhuman] at hpre
+      have hs : scrub (.str s) = .ok s := scrub_str_nonhex s p hp1 (hp2.trans hpre) hascii
+      rw [← hhuman] at hpre
+      rw [import_of_encoded P C r hr s sk _ hspec hpre hlen hs hdec pass']
+      simp [fromSecretExponent, fse_rec, h64, hpk]
+  · -- other curves: `ed25519_seed` is irrelevant, same as the plain export
+    obtain ⟨s, h1, h2⟩ := export_import_plain P C L CL k hk none rfl salt
+    refine ⟨s, ?_, h2⟩
+    obtain ⟨sk, hsec, _, _⟩ := hk
+    simp only [secretKey, kdf_eq.1, hsec, hc] at h1 ⊢
+    simpa using h1
+
+theorem pkh_rec : Generated.C08.pkhDigestSize = some 20 ∧ Generated.C08.hashKeyRecognised = true ∧
+    Generated.C08.publicKeyRecognised = true := by decide
+
+/-- the `tzN` prefix of a curve in the Tezos prefix registry -/
+def Spec.tz : Curve → Bytes
+  | .ed => [116, 122, 49]
+  | .sp => [116, 122, 50]
+  | .p2 => [116, 122, 51]
+  | .bl => [116, 122, 52]
+
+theorem pkhPrefix_eq (c : Curve) : pkhPrefix c = some (Spec.tz c) := by cases c <;> rfl
+
+theorem pkhRow (c : Curve) : ∃ r ∈ pkhRows, r.human = Spec.tz c ∧ r.dataLen = 20 ∧ r.encLen = 36 := by
+  cases c
+  · exact ⟨⟨[116, 122, 49], 36, [6, 161, 159], 20⟩, by decide, rfl, rfl, rfl⟩
+  · exact ⟨⟨[116, 122, 50], 36, [6, 161, 161], 20⟩, by decide, rfl, rfl, rfl⟩
+  · exact ⟨⟨[116, 122, 51], 36, [6, 161, 164], 20⟩, by decide, rfl, rfl, rfl⟩
+  · exact ⟨⟨[116, 122, 52], 36, [6, 161, 166], 20⟩, by decide, rfl, rfl, rfl⟩
+
+theorem publicKeyHash_eq (P : Prims) (C : Codec) (k : Key) :
+    publicKeyHash P C k = orErr (C.encode (P.blake2b 20 k.pub) (Spec.tz k.curve)) (.valueError .codec) := by
+  have h2 : ∃ t, Generated.C08.pkhPrefix = some t := ⟨_, rfl⟩
+  obtain ⟨t, ht⟩ := h2
+  simp [publicKeyHash, pkh_rec.1, ht, pkhPrefix_eq]
+
+/-- a public key text imports to the public point it encodes, with the curve of its prefix -/
+theorem public_key_roundtrip (P : Prims) (C : Codec) (L : Laws P) (CL : CodecLaws C keyRows)
+    (k : Key) (sk : Bytes) (hkp : KeyPair P k.curve k.pub sk) :
+    ∃ s, publicKey C k = .ok s ∧ ∀ pass, fromEncodedKey P C (.str s) pass = .ok ⟨k.pub, none, k.curve⟩ := by
+  obtain ⟨hl, hb⟩ := L.pk_len k.curve k.pub sk hkp
+  obtain ⟨r, hrow, hspec⟩ := pkRow k.curve
+  obtain ⟨hr, hhuman, hdl⟩ := keyRowOf_mem _ _ r hrow
+  obtain ⟨s, henc, hdec, hlen, hpre, hascii⟩ := CL.enc_dec r hr k.pub (by rw [hl, hdl]) hb
+  refine ⟨s, ?_, ?_⟩
+  · rw [hhuman] at henc
+    simp [publicKey, pkh_rec.2.2, henc]
+  · intro pass
+    obtain ⟨p, hp1, hp2⟩ := key_prefix_nonhex k.curve tagPk (Or.inr (Or.inr rfl))
+    rw [hhuman] at hpre
+    have hs : scrub (.str s) = .ok s := scrub_str_nonhex s p hp1 (hp2.trans hpre) hascii
+    rw [← hhuman] at hpre
+    rw [import_of_encoded P C r hr s k.pub _ hspec hpre hlen hs hdec pass]
+    simp
+
+/-- keys made by `from_secret_exponent` from a 32-byte secret / seed are well-formed -/
+theorem fromSecretExponent_wf (P : Prims) (c : Curve) (se : Bytes) (h32 : se.length = 32)
+    (hb : IsBytes se) (k : Key) (h : fromSecretExponent P c se = .ok k) : WFKey P k ∧ k.curve = c := by
+  cases c
+  · have hn : ¬ se.length = 64 := by omega
+    simp only [fromSecretExponent, fse_rec, Bool.not_true, Bool.false_eq_true, if_false, hn] at h
+    split at h
+    · rename_i pk sk hkp
+      cases h
+      exact ⟨⟨sk, rfl, ⟨se, hkp⟩, fun hc => absurd rfl hc⟩, rfl⟩
+    · cases h
+  all_goals
+    simp only [fromSecretExponent, fse_rec, Bool.not_true, Bool.false_eq_true, if_false] at h
+    split at h
+    · rename_i pk hpk
+      cases h
+      exact ⟨⟨se, rfl, hpk, fun _ => ⟨h32, hb⟩⟩, rfl⟩
+    · cases h
+
 end Impl.Key
